@@ -283,7 +283,7 @@ void explore_gen(Ctx &ctx) {
     for (size_t gi = 0; gi < GS.size(); gi++) {
         std::string nm = GS[gi].name;
         bool slow = nm.find("keypair") != std::string::npos || nm.find("seal") != std::string::npos || nm.find("pwhash") != std::string::npos;
-        size_t n = ctx.thorough() ? (slow ? 200 : 2000) : (slow ? 24 : 200);
+        size_t n = ctx.thorough() ? (slow ? 200 : 2000) : (slow ? 48 : 800);
         if (nm.find("scrypt") != std::string::npos) n = ctx.thorough() ? 24 : 6;
         for (size_t i = 0; i < n; i++) {
             uint64_t seed = r.next(); size_t pert = (size_t) r.next();
